@@ -176,6 +176,55 @@ Section Model.
   Definition inv_curvature pi_ G uv preload objs (noise : list cx) (value : T) : list (list T) :=
     curvature_matrix (inv_P objs) (inv_operated pi_ G uv preload objs) noise (inv_noreg objs) value.
 
+
+  (* ---------------- histories: several TransformerDFT objects alive in one process ---------------- *)
+  (* what a TransformerDFT instance keeps after __init__: self.grid, self.uv_wavelengths, and (preload_transform=True)
+     self.preload_real_transforms / self.preload_imag_transforms.  Every later call reads ONLY this state and its argument. *)
+  Record tobj := { t_grid : list (T * T); t_uv : list (T * T); t_pre : option (list (list T) * list (list T)) }.
+  Definition t_new (pi_ : T) (G : geom) (uv : list (T * T)) (preload : bool) : tobj :=
+    let grid := grid_radians pi_ G in
+    {| t_grid := grid; t_uv := uv;
+       t_pre := if preload then Some (preload_real grid uv, preload_imag grid uv) else None |}.
+  Definition t_vis (t : tobj) (img : list T) : list cx :=
+    match t_pre t with
+    | Some RI => visibilities_via_preload (length (t_uv t)) img (fst RI) (snd RI)
+    | None => visibilities_jit img (t_grid t) (t_uv t)
+    end.
+  Definition t_image (t : tobj) (vis : list cx) : res (list T) :=
+    image_via (length (t_grid t)) (t_grid t) (t_uv t) vis.
+  Definition t_tmm (t : tobj) (P : nat) (M : list (list T)) : list (list cx) :=
+    match t_pre t with
+    | Some RI => tmm_via_preload (length (t_uv t)) P M (fst RI) (snd RI)
+    | None => tmm_jit P M (t_grid t) (t_uv t)
+    end.
+  (* one step of a history: construct a transformer (appended to the store of live objects) or call a method of the
+     i-th live object with the CURRENT contents of the argument (however the caller produced them: fresh, derived by
+     arithmetic, edited in place, the same array object as in an earlier call) *)
+  Inductive hstep :=
+  | HNew (G : geom) (uv : list (T * T)) (preload : bool)
+  | HVis (i : nat) (img : list T)
+  | HImage (i : nat) (vis : list cx)
+  | HTmm (i P : nat) (M : list (list T)).
+  Inductive hout :=
+  | ONew (grid : list (T * T))
+  | OVis (v : list cx)
+  | OImage (r : res (list T))
+  | OTmm (m : list (list cx))
+  | OBad.                                   (* no such live object: never generated *)
+  Definition on_obj {A} (store : list A) (i : nat) (f : A -> hout) : hout :=
+    match nth_error store i with Some t => f t | None => OBad end.
+  Fixpoint run_hist (pi_ : T) (store : list tobj) (steps : list hstep) : list hout :=
+    match steps with
+    | [] => []
+    | HNew G uv p :: r => let t := t_new pi_ G uv p in ONew (t_grid t) :: run_hist pi_ (store ++ [t]) r
+    | HVis i img :: r => on_obj store i (fun t => OVis (t_vis t img)) :: run_hist pi_ store r
+    | HImage i vis :: r => on_obj store i (fun t => OImage (t_image t vis)) :: run_hist pi_ store r
+    | HTmm i P M :: r => on_obj store i (fun t => OTmm (t_tmm t P M)) :: run_hist pi_ store r
+    end.
+  Definition geom_ok (G : geom) : bool := rectn (Wn (g_mask G)) (g_mask G) && scales_ok (g_sy G) (g_sx G).
+  Definition hist_geoms_ok (steps : list hstep) : bool :=
+    forallb (fun s => match s with HNew G _ _ => geom_ok G | _ => true end) steps.
+
   (* =========================== independent specification =========================== *)
   (* V_k = sum_p I_p exp(-2 pi i (x_p u_k + y_p v_k)) = sum_p I_p cos(phi) - i sum_p I_p sin(phi) *)
   Definition dft_spec (img : list T) (grid uv : list (T * T)) : list cx :=
@@ -233,6 +282,19 @@ Section Model.
   (* the operator applied to every column of M, as a K x P matrix *)
   Definition tmm_spec (P : nat) (M : list (list T)) (grid uv : list (T * T)) : list (list cx) :=
     from_columns czero (length uv) (map (fun j => dft_spec (column M j) grid uv) (seq 0 P)).
+  (* the pure function of the current contents: every step's outcome depends only on the (mask geometry, baselines) the
+     addressed object was constructed from and on the argument of THIS call -- not on preload, not on earlier steps *)
+  Fixpoint pure_hist (pi_ : T) (ds : list (geom * list (T * T))) (steps : list hstep) : list hout :=
+    match steps with
+    | [] => []
+    | HNew G uv p :: r => ONew (centres_spec pi_ G) :: pure_hist pi_ (ds ++ [(G, uv)]) r
+    | HVis i img :: r =>
+        on_obj ds i (fun d => OVis (dft_spec img (centres_spec pi_ (fst d)) (snd d))) :: pure_hist pi_ ds r
+    | HImage i vis :: r =>
+        on_obj ds i (fun d => OImage (Ok (adjoint_re_spec (centres_spec pi_ (fst d)) (snd d) vis))) :: pure_hist pi_ ds r
+    | HTmm i P M :: r =>
+        on_obj ds i (fun d => OTmm (tmm_spec P M (centres_spec pi_ (fst d)) (snd d))) :: pure_hist pi_ ds r
+    end.
 End Model.
 
 (* =========================== correspondence cases =========================== *)
@@ -240,12 +302,35 @@ Definition qv := list Q.
 Definition qm := list (list Q).
 Definition qc := (Q * Q)%type.
 Definition tol : Q := 1 # 1000000000.
-Definition q_close (a b : Q) : bool := Qclose tol a b.
-Definition c_close (a b : qc) : bool := q_close (fst a) (fst b) && q_close (snd a) (snd b).
-Definition qv_close := list_eqb q_close.
-Definition qm_close := list_eqb qv_close.
-Definition cv_close := list_eqb c_close.
-Definition cm_close := list_eqb cv_close.
+(* Every routine here is LINEAR in one argument (image, column, visibilities, reconstruction) with coefficients of
+   magnitude <= 1 (cos, sin) or given tables, so the natural error scale of an output entry is the l1 norm of that
+   argument (times the coefficient bound): |a - b| <= 1e-9 * scale.  This is a RELATIVE comparison: an image / column /
+   visibility vector whose entries are all ~1e-12 is compared to ~1e-21 (an absolute 1e-9 would make it invisible), one
+   with entries ~1e12 to ~1e3.  scale = 0 (all-zero argument) demands exact equality. *)
+Definition s_close (s a b : Q) : bool := Qle_bool (Qabs (a - b)) (tol * s).
+Definition cs_close (s : Q) (a b : qc) : bool := s_close s (fst a) (fst b) && s_close s (snd a) (snd b).
+Definition qv_close_s (s : Q) := list_eqb (s_close s).
+Definition cv_close_s (s : Q) := list_eqb (cs_close s).
+Definition l1 (v : qv) : Q := fold_right (fun x a => Qred (Qabs x + a)) 0 v.
+Definition l1c (v : list qc) : Q := fold_right (fun x a => Qred (Qabs (fst x) + Qabs (snd x) + a)) 0 v.
+Definition cabs (p : qc) : qc := (Qabs (fst p), Qabs (snd p)).
+(* element-wise comparison with one scale per element; all three lists must have the same length *)
+Fixpoint list_eqb_s {S A} (f : S -> A -> A -> bool) (ss : list S) (x y : list A) : bool :=
+  match ss, x, y with
+  | [], [], [] => true
+  | s :: ss', a :: x', b :: y' => f s a b && list_eqb_s f ss' x' y'
+  | _, _, _ => false
+  end.
+Definition qv_close_ss := list_eqb_s s_close.
+Definition cv_close_ss := list_eqb_s cs_close.
+(* K x P matrices, one scale per COLUMN *)
+Definition cm_close_cols (ss : list Q) := list_eqb (cv_close_ss ss).
+Definition col_scales (P : nat) (M : qm) : list Q := map (fun j => l1 (@column QOpsT M j)) (seq 0 P).
+Definition tabmax (R I : qm) : Q :=
+  fold_right (fun r a => fold_right (fun x b => if Qle_bool (Qabs x) b then b else Qabs x) a r) 0 (R ++ I).
+(* the preload tables themselves are cos / sin values: absolute 1e-9 *)
+Definition q_close (a b : Q) : bool := s_close 1 a b.
+Definition qm_close := list_eqb (list_eqb q_close).
 (* the grid in radians (values ~1e-5) is compared to 1e-12 RELATIVE *)
 Definition q_rel (a b : Q) : bool := Qle_bool (Qabs (a - b)) ((1 # 1000000000000) * Qabs b).
 Definition cv_rel := list_eqb (fun a b : qc => q_rel (fst a) (fst b) && q_rel (snd a) (snd b)).
@@ -266,71 +351,113 @@ Inductive case :=
 | KTImage (pi_ : Q) (G : @geom QOpsT) (uv : list qc) (vis : list qc) (out : qv)
 | KTTmm (pi_ : Q) (G : @geom QOpsT) (uv : list qc) (preload : bool) (P : nat) (M : qm) (out : list (list qc))
 | KInv (pi_ : Q) (G : @geom QOpsT) (uv : list qc) (preload : bool) (objs : list obj) (data noise : list qc) (value : Q)
-       (outT : list (list qc)) (outD : qv) (outF : qm).
+       (outT : list (list qc)) (outD : qv) (outF : qm)
+(* a history of TransformerDFT objects and method calls in ONE interpreter, with what each step returned *)
+| KHist (pi_ : Q) (steps : list (@hstep QOpsT)) (outs : list (@hout QOpsT)).
 
-Definition res_close (x y : res qv) : bool := res_eqb qv_close x y.
+(* scales *)
+Definition data_scales (P : nat) (TM : list (list qc)) (vis noise : list qc) : list Q :=
+  @D_spec QOpsT P (map (map cabs) TM) (map cabs vis) noise.
+Definition recon_scales (TM : list (list qc)) (s : qv) : list Q :=
+  map (fun p : qc => Qred (fst p + snd p)) (@recon_spec QOpsT (map (map cabs) TM) (map Qabs s)).
+Definition all_columns (objs : list obj) : list qv :=
+  flat_map (fun o => map (fun j => @column QOpsT (snd (fst o)) j) (seq 0 (fst (fst o)))) objs.
+Definition noreg_spec (objs : list obj) : list nat :=
+  flat_map (fun io => if (snd io : bool) then [] else [fst io])
+    (enum (flat_map (fun o : obj => repeat (snd o) (fst (fst o))) objs)).
+Definition inv_col_scales (objs : list obj) : list Q := map l1 (all_columns objs).
+Definition inv_D_scales (objs : list obj) (data noise : list qc) : list Q :=
+  let w := fold_right (fun vn a => Qred (Qabs (fst (fst vn)) / (fst (snd vn) * fst (snd vn))
+                                         + Qabs (snd (fst vn)) / (snd (snd vn) * snd (snd vn)) + a)) 0 (combine data noise) in
+  map (fun c => Qred (c * w)) (inv_col_scales objs).
+Definition inv_F_scales (objs : list obj) (noise : list qc) (value : Q) : list (list Q) :=
+  let w := fold_right (fun n a => Qred (1 / (fst n * fst n) + 1 / (snd n * snd n) + a)) 0 noise in
+  let cs := inv_col_scales objs in
+  let nr := noreg_spec objs in
+  map (fun ic => map (fun jc => Qred (snd ic * snd jc * w
+                     + (if Nat.eqb (fst ic) (fst jc) then inject_Z (Z.of_nat (count_occ Nat.eq_dec nr (fst ic))) * Qabs value else 0)))
+                     (enum cs)) (enum cs).
+Definition qm_close_ss : list (list Q) -> qm -> qm -> bool := list_eqb_s qv_close_ss.
+
+Definition res_close_s (s : Q) (x y : res qv) : bool := res_eqb (qv_close_s s) x y.
+
+(* histories: step by step, each outcome compared independently on the scale of ITS argument *)
+Definition hout_close (st : @hstep QOpsT) (a b : @hout QOpsT) : bool :=
+  match st, a, b with
+  | HNew _ _ _, ONew g1, ONew g2 => cv_rel g1 g2
+  | HVis _ img, OVis v1, OVis v2 => cv_close_s (l1 img) v1 v2
+  | HImage _ vis, OImage r1, OImage r2 => res_close_s (l1c vis) r1 r2
+  | HTmm _ P M, OTmm m1, OTmm m2 => cm_close_cols (col_scales P M) m1 m2
+  | _, _, _ => false
+  end.
+Fixpoint hist_close (steps : list (@hstep QOpsT)) (x y : list (@hout QOpsT)) : bool :=
+  match steps, x, y with
+  | [], [], [] => true
+  | st :: steps', a :: x', b :: y' => hout_close st a b && hist_close steps' x' y'
+  | _, _, _ => false
+  end.
 
 Definition agree (k : case) : bool :=
   match k with
   | KPreload grid uv outR outI =>
       qm_close (@preload_real QOpsT grid uv) outR && qm_close (@preload_imag QOpsT grid uv) outI
-  | KVisPre K img preR preI out => cv_close (@visibilities_via_preload QOpsT K img preR preI) out
-  | KVis img grid uv out => cv_close (@visibilities_jit QOpsT img grid uv) out
-  | KImage n grid uv vis out => res_close (@image_via QOpsT n grid uv vis) out
-  | KTmmPre K P M preR preI out => cm_close (@tmm_via_preload QOpsT K P M preR preI) out
-  | KTmm P M grid uv out => cm_close (@tmm_jit QOpsT P M grid uv) out
-  | KData P TM vis noise out => qv_close (@data_vector QOpsT P TM vis noise) out
-  | KRecon TM s out => cv_close (@recon_visibilities QOpsT TM s) out
+  | KVisPre K img preR preI out =>
+      cv_close_s (l1 img * tabmax preR preI) (@visibilities_via_preload QOpsT K img preR preI) out
+  | KVis img grid uv out => cv_close_s (l1 img) (@visibilities_jit QOpsT img grid uv) out
+  | KImage n grid uv vis out => res_close_s (l1c vis) (@image_via QOpsT n grid uv vis) out
+  | KTmmPre K P M preR preI out =>
+      cm_close_cols (map (fun c => c * tabmax preR preI) (col_scales P M)) (@tmm_via_preload QOpsT K P M preR preI) out
+  | KTmm P M grid uv out => cm_close_cols (col_scales P M) (@tmm_jit QOpsT P M grid uv) out
+  | KData P TM vis noise out => qv_close_ss (data_scales P TM vis noise) (@data_vector QOpsT P TM vis noise) out
+  | KRecon TM s out => cv_close_ss (recon_scales TM s) (@recon_visibilities QOpsT TM s) out
   | KTGrid pi_ G out => cv_rel (@grid_radians QOpsT pi_ G) out
-  | KTVis pi_ G uv preload img out => cv_close (@tr_visibilities QOpsT pi_ G uv preload img) out
-  | KTImage pi_ G uv vis out => res_close (@tr_image QOpsT pi_ G uv vis) (Ok out)
-  | KTTmm pi_ G uv preload P M out => cm_close (@tr_mapping_matrix QOpsT pi_ G uv preload P M) out
+  | KTVis pi_ G uv preload img out => cv_close_s (l1 img) (@tr_visibilities QOpsT pi_ G uv preload img) out
+  | KTImage pi_ G uv vis out => res_close_s (l1c vis) (@tr_image QOpsT pi_ G uv vis) (Ok out)
+  | KTTmm pi_ G uv preload P M out => cm_close_cols (col_scales P M) (@tr_mapping_matrix QOpsT pi_ G uv preload P M) out
   | KInv pi_ G uv preload objs data noise value outT outD outF =>
-      cm_close (@inv_operated QOpsT pi_ G uv preload objs) outT
-      && qv_close (@inv_data_vector QOpsT pi_ G uv preload objs data noise) outD
-      && qm_close (@inv_curvature QOpsT pi_ G uv preload objs noise value) outF
+      (* inv_data_vector / inv_curvature unfolded so that the operated matrix is evaluated once *)
+      let TM := @inv_operated QOpsT pi_ G uv preload objs in
+      cm_close_cols (inv_col_scales objs) TM outT
+      && qv_close_ss (inv_D_scales objs data noise) (@data_vector QOpsT (@inv_P QOpsT objs) TM data noise) outD
+      && qm_close_ss (inv_F_scales objs noise value)
+           (@curvature_matrix QOpsT (@inv_P QOpsT objs) TM noise (@inv_noreg QOpsT objs) value) outF
+  | KHist pi_ steps outs => hist_close steps (@run_hist QOpsT pi_ [] steps) outs
   end.
 
 (* the specification applied to the implementation's outputs; never calls the model routines *)
-Definition all_columns (K : nat) (objs : list obj) : list qv :=
-  flat_map (fun o => map (fun j => @column QOpsT (snd (fst o)) j) (seq 0 (fst (fst o)))) objs.
 Definition spec_ok (k : case) : bool :=
   match k with
   | KPreload grid uv outR outI =>
       qm_close outR (@table_spec QOpsT (fun s => cos2pi QOpsT s) grid uv)
       && qm_close outI (@table_spec QOpsT (fun s => opp QOpsT (sin2pi QOpsT s)) grid uv)
-  | KVisPre K img preR preI out => cv_close out (@tab_spec QOpsT K img preR preI)
-  | KVis img grid uv out => cv_close out (@dft_spec QOpsT img grid uv)
+  | KVisPre K img preR preI out => cv_close_s (l1 img * tabmax preR preI) out (@tab_spec QOpsT K img preR preI)
+  | KVis img grid uv out => cv_close_s (l1 img) out (@dft_spec QOpsT img grid uv)
   | KImage n grid uv vis out =>
       match out with
-      | Ok o => Nat.leb n (length grid) && qv_close o (@adjoint_re_spec QOpsT (firstn n grid) uv vis)
-                || (Nat.ltb (length grid) n && Nat.eqb (length uv) 0 && qv_close o (repeat 0%Q n))
+      | Ok o => Nat.leb n (length grid) && qv_close_s (l1c vis) o (@adjoint_re_spec QOpsT (firstn n grid) uv vis)
+                || (Nat.ltb (length grid) n && Nat.eqb (length uv) 0 && qv_close_s 0 o (repeat 0%Q n))
       | Raise e => Nat.ltb (length grid) n && negb (Nat.eqb (length uv) 0) && exn_eqb e IndexError
       end
   | KTmmPre K P M preR preI out =>
-      Nat.eqb (length out) K &&
-      @columns_spec QOpsT P (fun col => @tab_spec QOpsT K col preR preI) M out c_close
-  | KTmm P M grid uv out =>
-      Nat.eqb (length out) (length uv) &&
-      @columns_spec QOpsT P (fun col => @dft_spec QOpsT col grid uv) M out c_close
-  | KData P TM vis noise out => qv_close out (@D_spec QOpsT P TM vis noise)
-  | KRecon TM s out => cv_close out (@recon_spec QOpsT TM s)
+      cm_close_cols (map (fun c => c * tabmax preR preI) (col_scales P M)) out
+        (@from_columns qc (0, 0) K (map (fun j => @tab_spec QOpsT K (@column QOpsT M j) preR preI) (seq 0 P)))
+  | KTmm P M grid uv out => cm_close_cols (col_scales P M) out (@tmm_spec QOpsT P M grid uv)
+  | KData P TM vis noise out => qv_close_ss (data_scales P TM vis noise) out (@D_spec QOpsT P TM vis noise)
+  | KRecon TM s out => cv_close_ss (recon_scales TM s) out (@recon_spec QOpsT TM s)
   | KTGrid pi_ G out => cv_rel (@centres_spec QOpsT pi_ G) out
-  | KTVis pi_ G uv preload img out => cv_close out (@dft_spec QOpsT img (@centres_spec QOpsT pi_ G) uv)
-  | KTImage pi_ G uv vis out => qv_close out (@adjoint_re_spec QOpsT (@centres_spec QOpsT pi_ G) uv vis)
+  | KTVis pi_ G uv preload img out => cv_close_s (l1 img) out (@dft_spec QOpsT img (@centres_spec QOpsT pi_ G) uv)
+  | KTImage pi_ G uv vis out => qv_close_s (l1c vis) out (@adjoint_re_spec QOpsT (@centres_spec QOpsT pi_ G) uv vis)
   | KTTmm pi_ G uv preload P M out =>
-      Nat.eqb (length out) (length uv) &&
-      @columns_spec QOpsT P (fun col => @dft_spec QOpsT col (@centres_spec QOpsT pi_ G) uv) M out c_close
+      cm_close_cols (col_scales P M) out (@tmm_spec QOpsT P M (@centres_spec QOpsT pi_ G) uv)
   | KInv pi_ G uv preload objs data noise value outT outD outF =>
-      let cols := all_columns (length uv) objs in
+      let cols := all_columns objs in
       let P := length cols in
       let TMs := @from_columns qc (0, 0) (length uv)
                    (map (fun col => @dft_spec QOpsT col (@centres_spec QOpsT pi_ G) uv) cols) in
-      cm_close outT TMs
-      && qv_close outD (@D_spec QOpsT P TMs data noise)
-      && qm_close outF (@F_spec QOpsT P TMs noise
-                          (flat_map (fun io => if (snd io : bool) then [] else [fst io])
-                             (enum (flat_map (fun o : obj => repeat (snd o) (fst (fst o))) objs))) value)
+      cm_close_cols (inv_col_scales objs) outT TMs
+      && qv_close_ss (inv_D_scales objs data noise) outD (@D_spec QOpsT P TMs data noise)
+      && qm_close_ss (inv_F_scales objs noise value) outF (@F_spec QOpsT P TMs noise (noreg_spec objs) value)
+  | KHist pi_ steps outs => @hist_geoms_ok QOpsT steps && hist_close steps outs (@pure_hist QOpsT pi_ [] steps)
   end.
 
 Definition check (k : case) : nat := verdict (agree k) (spec_ok k).
